@@ -32,12 +32,14 @@ SPEC = dict(
         'one event per instance, applied to an ARBITRARY pre-state satisfying the representation invariant INV: the unacknowledged store holds n <= 4 (quick) / n <= 6 (thorough groups *6) stanzas with consecutive keys lastOut-n+1..lastOut, n <= lastOut, none of them reported yet; enabled flag arbitrary; lastOut, lastIn < 2^31',
         'every step asserts INV again for its post-state and h_initial proves INV for a fresh manager, so by induction the per-event claims hold along every event sequence that never has more than 4 (6) unacknowledged stanzas pending',
         'ack / resumed handled-count h: any 32-bit value (stale, exact, beyond); inbound element: tag of <= 8 arbitrary UTF-16 units, namespace jabber:client | urn:xmpp:sm:3 | <= 2 arbitrary units; every socket write succeeds or fails nondeterministically; previd / id strings <= 2 arbitrary units',
+        'composed runs crossing a session boundary (ack_newsession_ack / ack_newsession_resume; quick n <= 3, thorough also n <= 4): <a h=H1/>, connection loss, stream management enabled on a new session (renumbering), optionally one send, then <a h=H2/> resp. resumed(h=H2), H1 and H2 arbitrary - they let state that a code change adds to the manager be built up by one session and observed in the next',
         'thorough only: two / three consecutive events composed in one run (send_then_ack, close_send_enable)',
-        'socket log capacity 8 writes, QMap model capacity n+1 entries (both asserted as model limits)',
+        'socket log capacity 8 writes (2n+6 in the composed session runs), QMap model capacity n+1 entries (both asserted as model limits)',
     ],
     assumptions=[
         'QXmppTask/QXmppPromise are the assume-guarantee shadow (models/shadow/task_shadow.h; its contract is established for the real classes by C13); the shadow itself asserts that no promise is finished twice = "no report fires twice"',
         'QMap<unsigned,QXmppPacket> is a class-level model (ordered array with value semantics, elements copied/destroyed by the REAL QXmppPacket copy constructor/destructor) installed over the inline QMap members; QXmppPacket itself (QXmppPacket.cpp) is real',
+        'ShadowRef<SendResult>::release of the task shadow is modelled as "decrement, never free": dropping the last reference only reclaims memory and is not observable by C09 (halves cost); no memory-leak check is claimed',
         'packet payloads are opaque one-byte blocks carrying a ghost id; XmppSocket::sendData is a ghost log with a nondeterministic result (FakeSock subclass in the harness, XmppSocket constructor modelled empty)',
         'serializeXml<SmAck|SmRequest|SmResume|SmEnable> run the REAL toXml into the writer tree model and the document is classified structurally (<a h=N/>, <r/>, <resume h=N previd/>, <enable/>); Qt text encoding and number formatting/parsing are trusted (abstract number strings)',
         'c2s group: QXmppOutgoingClient / QXmppOutgoingClientPrivate are raw storage in which only d, d->socket and d->streamAckManager are alive; QXmppLoggable::logMessage is empty; conditionFromString (error condition inside <failed/>) returns an arbitrary value',
